@@ -14,7 +14,7 @@ def _complete(steps, topo, init_up):
     for s in steps:
         s["subs"] = sorted(s["subs"]) if isinstance(s["subs"], list) else s["subs"]
     if not any(s["a"] == "freeze" for s in steps):
-        up = {tuple(sorted(e)) for e in init_up} | {tuple(sorted(s["subs"])) for s in steps if s["a"] == "linkup"}
+        up = {tuple(sorted(e)) for e in init_up} | {tuple(sorted(s["subs"])) for s in steps if s["a"] in ("linkup", "relink")}
         for e in topo:
             if tuple(sorted(e)) not in up:
                 steps.append({"a": "linkup", "n": "", "id": 0, "subs": sorted(e), "w": True})
@@ -33,7 +33,8 @@ def dynamic(ctx):
     out = []
     # (model mutant, invariant it must break): ghost subscription after a subscribe+release within one sweep; stale initial set
     # leaving a ghost; stale initial set hiding a subscription from a later link (messages lost)
-    for bug, cfg in (("initempty", "MC_FloodSubDynDir.cfg"), ("staleinit", "MC_FloodSubDynDir.cfg"), ("staleinit", "MC_FloodSubDynDirM.cfg")):
+    for bug, cfg in (("initempty", "MC_FloodSubDynDir.cfg"), ("staleinit", "MC_FloodSubDynDir.cfg"), ("staleinit", "MC_FloodSubDynDirM.cfg"),
+                     ("relinkdrop", "MC_FloodSubDynDirM.cfg")):
         hs = []
         for big in ("1", "0"):   # prefer a scenario made of big steps only (deterministic on the real nodes)
             r = ctx.tlc("MC_FloodSubDyn", cfg=cfg, workers=1, timeout=600, env={"BUG": bug, "BIGSTEP": big}, expect_ok=False, count=False)
